@@ -160,7 +160,7 @@ prop('C02',
 
 
 prop('C13',
-     [T.r19_a, T.r19_e, T.r19_h, PO.r13_b, PO.r13_c, PO.r13_d, PO.r13_e],
+     [T.r19_a, T.r19_e, T.r19_h, PO.r13_b, PO.r13_c, PO.r13_d, PO.r13_e, PO.r13_f],
      'Provenance of positions from the categoriser to the node constructors: the tokenizer abstract interpretation '
      'gives the provenance of every token position; a symbolic (affine) evaluation of the position argument of every '
      'Token built by the Token arithmetic methods; the conservation engine records, for every node the reader builds, '
@@ -169,8 +169,8 @@ prop('C13',
      'character; R13.b concatenation/prefixing/join/iteration/indexing/stripping keep positions true; R13.c every node '
      'gets the position of the first token consumed for it; R13.d a regex match is reported at leaf position + match '
      'start.',
-     'the line/column arithmetic of char_pos_to_line (value-level; while reading the code the offset of a line feed '
-     'was seen to map to (next line, -1), which no static rule here reaches).')
+     'exactness of the line/column arithmetic beyond the shape of the look-up and the column formula (the clamping '
+     'in the last line, CR handling).')
 
 prop('C14',
      [TR.r14_a, TR.r14_b, AR.r18_d, TR.r03_c, CV.r08_e],
